@@ -170,6 +170,26 @@ theorem SOK.progOK {prog : List Instr} {s : St} (hP : ProgWF prog) (hS : SOK pro
 theorem SOK.icoh {prog : List Instr} {s : St} (hP : ProgWF prog) (hS : SOK prog s) : ICoh s.imem := by
   rw [hS.1]; exact ICoh_nocache _ rfl hP.len
 
+/-- FINAL STATE, composed, general form (any hazard flag, decode free of RAW hazards along the run). -/
+theorem final_state_single_raw (prog : List Instr) (hP : ProgWF prog) (st : St) (hS : SOK prog st)
+    (hzf : Bool) (hx : st.exitCode = none) (n : Nat) (hr : runOK n (PSt.init st hzf))
+    (hraw : ∀ m, m < n → RawFree (pipeRun m (PSt.init st hzf)))
+    (hd : isDone (pipeRun n (PSt.init st hzf)) = true)
+    (hprev : ∀ m, m < n → isDone (pipeRun m (PSt.init st hzf)) = false) :
+    ∃ k, k ≤ n ∧
+      (∀ j, j < k → (singleStep (singleRun j st)).fault = none ∧ singleDone (singleRun j st) = false) ∧
+      singleDone (singleRun k st) = true ∧
+      SimP (pipeRun n (PSt.init st hzf)).st (singleRun k st) ∧
+      retireLog n (PSt.init st hzf) = singleTrace k st := by
+  obtain ⟨k, hk, hsim, hdone, hfirst, hlog, hnf⟩ :=
+    final_state_raw st hzf (hS.progOK hP) (hS.icoh hP) hx n hr hraw hd hprev
+  obtain ⟨e, _⟩ := seqRun_eq_singleRun prog hP st hS k hnf
+  refine ⟨k, hk, fun j hj => ?_, by rw [← e]; exact hdone, by rw [← e]; exact hsim, ?_⟩
+  · obtain ⟨ej, hokj⟩ := seqRun_eq_singleRun prog hP st hS j (fun j' hj' => hnf j' (Nat.lt_trans hj' hj))
+    refine ⟨?_, by rw [← ej]; exact hfirst j hj⟩
+    rw [← (seq_eq_single prog hP _ hokj).1, ← ej]; exact hnf j hj
+  · rw [hlog]; exact seqTrace_eq_singleTrace prog hP st hS k hnf
+
 /-- FINAL STATE, composed: five-stage run vs single-cycle run. -/
 theorem final_state_single (prog : List Instr) (hP : ProgWF prog) (st : St) (hS : SOK prog st)
     (hx : st.exitCode = none) (n : Nat) (hr : runOK n (PSt.init st true))
@@ -179,20 +199,27 @@ theorem final_state_single (prog : List Instr) (hP : ProgWF prog) (st : St) (hS 
       (∀ j, j < k → (singleStep (singleRun j st)).fault = none ∧ singleDone (singleRun j st) = false) ∧
       singleDone (singleRun k st) = true ∧
       SimP (pipeRun n (PSt.init st true)).st (singleRun k st) ∧
-      retireLog n (PSt.init st true) = singleTrace k st := by
-  obtain ⟨k, hk, hsim, hdone, hfirst, hlog, hnf⟩ :=
-    final_state_init st (hS.progOK hP) (hS.icoh hP) hx n hr hd hprev
-  obtain ⟨e, _⟩ := seqRun_eq_singleRun prog hP st hS k hnf
-  refine ⟨k, hk, fun j hj => ?_, by rw [← e]; exact hdone, by rw [← e]; exact hsim, ?_⟩
-  · obtain ⟨ej, hokj⟩ := seqRun_eq_singleRun prog hP st hS j (fun j' hj' => hnf j' (Nat.lt_trans hj' hj))
-    refine ⟨?_, by rw [← ej]; exact hfirst j hj⟩
-    rw [← (seq_eq_single prog hP _ hokj).1, ← ej]; exact hnf j hj
-  · rw [hlog]; exact seqTrace_eq_singleTrace prog hP st hS k hnf
+      retireLog n (PSt.init st true) = singleTrace k st :=
+  final_state_single_raw prog hP st hS true hx n hr
+    (rawFree_run_of_hazard _ (PInv_init st true (hS.progOK hP) (hS.icoh hP)) rfl n hr) hd hprev
 
 end ArchSim.Pipe
 
 namespace ArchSim.Pipe
 open ArchSim ArchSim.Rv
+
+/-- TERMINATION, composed, general form. -/
+theorem terminates_single_raw (prog : List Instr) (hP : ProgWF prog) (st : St) (hS : SOK prog st)
+    (hzf : Bool)
+    (hraw : ∀ n, runOK n (PSt.init st hzf) → ∀ m, m < n → RawFree (pipeRun m (PSt.init st hzf)))
+    (kstar : Nat) (hnf : ∀ j, j < kstar → (singleStep (singleRun j st)).fault = none)
+    (hh : singleDone (singleRun kstar st) = true ∨ (singleStep (singleRun kstar st)).fault.isSome = true) :
+    ∃ N, N ≤ 5 * (kstar + 2) ∧
+      (¬ runOK N (PSt.init st hzf) ∨ isDone (pipeRun N (PSt.init st hzf)) = true) := by
+  obtain ⟨e, hok⟩ := singleRun_eq_seqRun prog hP st hS kstar hnf
+  apply terminates_raw st hzf (hS.progOK hP) (hS.icoh hP) hraw kstar
+  rw [e, (seq_eq_single prog hP _ hok).1]
+  exact hh
 
 /-- TERMINATION, composed: if the single-cycle run reaches, without a fault, a state that is done or
     whose next step faults, after `kstar` steps, the five-stage run has faulted or is done after at
@@ -201,26 +228,23 @@ theorem terminates_single (prog : List Instr) (hP : ProgWF prog) (st : St) (hS :
     (kstar : Nat) (hnf : ∀ j, j < kstar → (singleStep (singleRun j st)).fault = none)
     (hh : singleDone (singleRun kstar st) = true ∨ (singleStep (singleRun kstar st)).fault.isSome = true) :
     ∃ N, N ≤ 5 * (kstar + 2) ∧
-      (¬ runOK N (PSt.init st true) ∨ isDone (pipeRun N (PSt.init st true)) = true) := by
-  obtain ⟨e, hok⟩ := singleRun_eq_seqRun prog hP st hS kstar hnf
-  apply terminates_init st (hS.progOK hP) (hS.icoh hP) kstar
-  rw [e, (seq_eq_single prog hP _ hok).1]
-  exact hh
+      (¬ runOK N (PSt.init st true) ∨ isDone (pipeRun N (PSt.init st true)) = true) :=
+  terminates_single_raw prog hP st hS true
+    (fun n hr => rawFree_run_of_hazard _ (PInv_init st true (hS.progOK hP) (hS.icoh hP)) rfl n hr)
+    kstar hnf hh
 
-/-- FAULT AGREEMENT, composed: if cycle `n + 1` is the first to report a fault, the single-cycle run
-    executes some `k ≤ n` steps without fault and its next step reports the same fault for the same
-    instruction address; the physical registers and output of the pipeline at the moment of the
-    fault are those of the single-cycle state before the faulting instruction. -/
-theorem fault_agrees_single (prog : List Instr) (hP : ProgWF prog) (st : St) (hS : SOK prog st)
-    (n : Nat) (hr : runOK n (PSt.init st true)) (ft : PFault)
-    (hft : (step (pipeRun n (PSt.init st true))).fault = some ft) :
+/-- FAULT AGREEMENT, composed, general form. -/
+theorem fault_agrees_single_raw (prog : List Instr) (hP : ProgWF prog) (st : St) (hS : SOK prog st)
+    (hzf : Bool) (n : Nat) (hr : runOK n (PSt.init st hzf))
+    (hraw : ∀ m, m < n → RawFree (pipeRun m (PSt.init st hzf))) (ft : PFault)
+    (hft : (step (pipeRun n (PSt.init st hzf))).fault = some ft) :
     ∃ k, k ≤ n ∧ (∀ j, j < k → (singleStep (singleRun j st)).fault = none) ∧
       (singleStep (singleRun k st)).fault = some (ft.addr, ft.fault) ∧ (singleRun k st).pc = ft.addr ∧
-      (step (pipeRun n (PSt.init st true))).p.st.regs = (singleRun k st).regs ∧
-      (step (pipeRun n (PSt.init st true))).p.st.output = (singleRun k st).output := by
-  have hI := PInv_init st true (hS.progOK hP) (hS.icoh hP)
+      (step (pipeRun n (PSt.init st hzf))).p.st.regs = (singleRun k st).regs ∧
+      (step (pipeRun n (PSt.init st hzf))).p.st.output = (singleRun k st).output := by
+  have hI := PInv_init st hzf (hS.progOK hP) (hS.icoh hP)
   obtain ⟨k0, hk0, hf0, hpc0, hregs0, hout0⟩ :=
-    fault_agrees_run _ hI rfl (absF_init st true) n hr ft hft
+    fault_agrees_run_raw _ hI (absF_init st hzf) n hr hraw ft hft
   rw [abs_init] at hf0 hpc0 hregs0 hout0
   -- the first sequential step that faults
   obtain ⟨k, hk, hfk, hmin⟩ :=
@@ -239,5 +263,19 @@ theorem fault_agrees_single (prog : List Instr) (hP : ProgWF prog) (st : St) (hS
   · rw [← e, heq]; exact hpc0
   · rw [← e, heq]; exact hregs0
   · rw [← e, heq]; exact hout0
+
+/-- FAULT AGREEMENT, composed: if cycle `n + 1` is the first to report a fault, the single-cycle run
+    executes some `k ≤ n` steps without fault and its next step reports the same fault for the same
+    instruction address; the physical registers and output of the pipeline at the moment of the
+    fault are those of the single-cycle state before the faulting instruction. -/
+theorem fault_agrees_single (prog : List Instr) (hP : ProgWF prog) (st : St) (hS : SOK prog st)
+    (n : Nat) (hr : runOK n (PSt.init st true)) (ft : PFault)
+    (hft : (step (pipeRun n (PSt.init st true))).fault = some ft) :
+    ∃ k, k ≤ n ∧ (∀ j, j < k → (singleStep (singleRun j st)).fault = none) ∧
+      (singleStep (singleRun k st)).fault = some (ft.addr, ft.fault) ∧ (singleRun k st).pc = ft.addr ∧
+      (step (pipeRun n (PSt.init st true))).p.st.regs = (singleRun k st).regs ∧
+      (step (pipeRun n (PSt.init st true))).p.st.output = (singleRun k st).output :=
+  fault_agrees_single_raw prog hP st hS true n hr
+    (rawFree_run_of_hazard _ (PInv_init st true (hS.progOK hP) (hS.icoh hP)) rfl n hr) ft hft
 
 end ArchSim.Pipe
